@@ -7,6 +7,7 @@ HDR_MODEL_MAX = 1200      # the wrapper length (calculate_lz13_header) is comput
 
 class C09(LZCheckMixin, PropertyCheck):
     pid = "C09"
+    source_tables = ["LZ13_CONSTS", "LZ13_HEADER_CONSTS", "LZ_DECODE_CONSTS"]   # tables / constants regenerated from /repo's source (gen/srctables.py)
     release_too = True
     rule = ("streams: as C08 through LZ13CompressionFormat (all strings over 2 and 3 letters up to a bound, every run length 0..300/700 "
             "- covering the length forms <=16, 17..272, >272 -, long runs around 4096, structured random inputs <= 6 KiB against the model, "
